@@ -301,6 +301,10 @@ Proof.
     destruct (remove_needs_rw s E) as [H1 _]. rewrite H1. cbn. apply unchanged_refl.
   - rewrite mode_is_rw. destruct (is_rw s) eqn:E; [reflexivity|].
     destruct (remove_needs_rw s E) as [_ H1]. rewrite H1. cbn. apply unchanged_refl.
+  - (* open with an unparsable counter block *)
+    cbn [step fst snd ores observe is_ok res_eqb negb andb]. apply unchanged_refl.
+  - (* failed counter write *)
+    cbn [step fst snd ores observe is_ok res_eqb negb andb]. apply unchanged_refl.
   - (* failed counter read *)
     cbn [step fst snd ores observe is_ok res_eqb negb andb]. apply unchanged_refl.
   - (* failed open *)
